@@ -8,7 +8,8 @@ PROP = {
              "cursor without its first segments, cursor placed under extra segments, cursor with one more segment, free path, junk text); "
              "driven through Obfuscator{MD5Hasher}.ObfuscateJSON (cursor notation '.a.b', '[]'), the HAR collector processor "
              "('$.request.body…' / '$.response.body…' mixed with header/query/path exclusions, request and response body of one "
-             "transaction) and the diagnosis HAR generator plugin (request_body_paths / response_body_paths); thorough tier adds "
+             "transaction) and the diagnosis HAR generator plugin (request_body_paths / response_body_paths); an exhaustive unit runs every "
+             "document of nesting <= 2 over keys {a,b} (653) against every cursor of <= 3 segments over {.a,.b,[]} (40); thorough tier adds "
              "byte-level mutations of valid documents. A case is non-trivial when the document contains the last segment of one of its "
              "exclusions at two or more different cursors; distinct = distinct canonical JSON of (document text(s), exclusion list)"),
     "assumptions": [
@@ -26,13 +27,14 @@ PROP = {
         {"pkg": "c16", "test": "TestObfuscateJSONCursor", "quick": 20000, "thorough": 150000, "shards": 16},
         {"pkg": "c16", "test": "TestHARCollectorBodies", "quick": 5000, "thorough": 40000, "shards": 16},
         {"pkg": "c16", "test": "TestHARGeneratorPluginBodies", "quick": 8000, "thorough": 60000, "shards": 16},
+        {"pkg": "c16", "test": "TestSmallSpaceExhaustive", "kind": "plain"},
         {"pkg": "c16", "test": "TestObfuscateJSONBytes", "thorough": 300000, "shards": 16, "tiers": ["thorough"]},
         {"pkg": "c16", "test": "FuzzObfuscateJSON", "kind": "plain", "tiers": ["thorough"]},
         {"pkg": "c16", "test": "TestWitnessSuffixExclusion", "kind": "plain"},
         {"pkg": "c16", "test": "TestWitnessWholeBodyExclusion", "kind": "plain"},
         {"pkg": "c16", "test": "TestWitnessControlCharacterInKey", "kind": "plain"},
     ],
-    "technique": ("property-based testing (rapid): generated documents with colliding key names and generated exclusion sets; oracle = "
+    "technique": ("property-based testing (rapid) + bounded-exhaustive enumeration of a small document/exclusion space: generated documents with colliding key names and generated exclusion sets; oracle = "
                   "independent segment-wise path matcher + leaf-by-leaf comparison of input and output (hash of a canonical form / verbatim / "
                   "same keys, nesting, array lengths); byte-level mutation search and a native fuzz target (seed corpus) share the oracle"),
     "level_text": ("every generated (document, exclusions) pair is obfuscated by the real code at three entry points and the output is compared "
